@@ -102,7 +102,7 @@ def evaluate_non_measured_estimation_tasks(
     for task in estimation_tasks:
         coefficient: complex
         if task.operator.is_constant:
-            coefficient = task.operator.terms[0].coefficient
+            coefficient = sum(term.coefficient for term in task.operator.terms)
         else:
             if task.number_of_shots is not None and task.number_of_shots > 0:
                 raise RuntimeError(
